@@ -77,7 +77,7 @@ Lemma set_bits_strukt_ok : forall s lo len raw, strukt_ok s ->
   strukt_ok (mkS (set_bits (sdata s) lo len raw) (sptrs s)).
 Proof.
   intros s lo len raw [Hb Hsz]. split; cbn [sdata].
-  - apply set_bits_ok.
+  - apply set_bits_ok. assumption.
   - unfold dsz in *. cbn [sdata]. rewrite set_bits_length. assumption.
 Qed.
 
@@ -683,12 +683,16 @@ Qed.
 
 (* sizes *)
 Theorem gen_node_size : forall n, nd_isgroup n = false ->
+  0 <= nd_dwc n < 65536 -> 0 <= nd_pc n < 65536 ->
   ni_new (gen_node n) = Some (8 * nd_dwc n, nd_pc n) /\
   ni_newroot (gen_node n) = Some (8 * nd_dwc n, nd_pc n) /\
   ni_list (gen_node n) = Some (8 * nd_dwc n, nd_pc n) /\
-  ni_typeid (gen_node n) = Some (nd_id n).
+  ni_typeid (gen_node n) = Some (nd_id n) /\
+  (* the whole legal range, without reduction modulo 2^16: 8192 words and more give >= 65536 bytes *)
+  0 <= 8 * nd_dwc n <= 524280 /\ (8192 <= nd_dwc n -> 65536 <= fst (gen_objsize n)).
 Proof.
-  intros n H. unfold gen_node, gen_objsize. rewrite H. cbn. rewrite Z.mul_comm. auto.
+  intros n H Hd Hp. unfold gen_node, gen_objsize. rewrite H. cbn [ni_new ni_newroot ni_list ni_typeid fst].
+  rewrite Z.mul_comm. repeat split; try reflexivity; lia.
 Qed.
 
 (* a field the schema places inside the node's sections can be set on a struct allocated with the
